@@ -91,7 +91,9 @@ fn gen(seed: u64, tier: Tier) -> Plan {
         1 => cand_len - 1,
         _ => rng.usize_below(cand_len),
     };
-    let kind = rng.pick(BLOCK_INVALIDITY_KINDS).to_string();
+    // a quarter of the runs: the bad block is invalid because a transaction's input is not spendable
+    // (then a roll-back that also "unwinds" the never-applied block would resurrect that input)
+    let kind = if rng.chance(1, 4) { rng.pick(TX_INVALIDITY_KINDS).to_string() } else { rng.pick(BLOCK_INVALIDITY_KINDS).to_string() };
     let prune_after = *rng.pick(&[1u64, 2, 3, 8, 8]);
     let disk_fault_nth = if rng.chance(1, 4) { Some(rng.below(6)) } else { None };
     Plan {
@@ -114,7 +116,7 @@ impl Scenario for C04 {
     fn meta(&self) -> Meta {
         Meta {
             level: "exploration",
-            rule: "run = shared prefix + main chain (0..M blocks) + candidate chain (1..F blocks, longer than main) whose block at bad_pos carries one of 11 header/transaction edits that only validation notices (re-signed, so decodable and self-consistent); candidate blocks are delivered in order, so the ones not longer than main are stored unvalidated and the first longer one triggers the reorganisation attempt; optional disk read fault on the n-th block-file read of that call; prune depth 1..8 so that unwinding needs Pruned->Full upgrades. Oracle: full snapshot {tip, spendable set, index for all ids, stored blocks + on-chain flags, wallet slips/unspent/balance} before == after every call that does not return BlockAddedSuccessfully; step budget 8*(|new|+|old|)+16 on the wind/unwind loop; afterwards the node must still extend its chain. distinct_nontrivial = distinct (|main|, |cand|, bad_pos, kind, disk fault, prune depth) whose triggering call entered validation and was rejected.",
+            rule: "run = shared prefix + main chain (0..M blocks) + candidate chain (1..F blocks, longer than main) whose block at bad_pos carries one of 11 header/transaction edits that only validation notices (re-signed, so decodable and self-consistent) or, in a quarter of the runs, a transaction whose input is not spendable on that branch (already spent by an ancestor, or never existed); candidate blocks are delivered in order, so the ones not longer than main are stored unvalidated and the first longer one triggers the reorganisation attempt; optional disk read fault on the n-th block-file read of that call; prune depth 1..8 so that unwinding needs Pruned->Full upgrades. Oracle: full snapshot {tip, spendable set, index for all ids, stored blocks + on-chain flags, wallet slips/unspent/balance} before == after every call that does not return BlockAddedSuccessfully; step budget 8*(|new|+|old|)+16 on the wind/unwind loop; afterwards the node must still extend its chain. distinct_nontrivial = distinct (|main|, |cand|, bad_pos, kind, disk fault, prune depth) whose triggering call entered validation and was rejected.",
             real: &["Blockchain::add_block/validate/wind_chain/unwind_chain/add_block_failure", "Block::validate/upgrade_block_to_block_type", "BlockRing", "Wallet::on_chain_reorganization", "Storage"],
             stubs: &["SimIo (in-memory disk with read faults)", "SimConfig", "vendored ahash"],
             assumptions: &["transaction-level invalidity is C01's (Block::validate verdict on transactions)", "genesis period >> chain length", "block cache type (Pruned/Full) is not part of the compared state"],
@@ -157,6 +159,19 @@ impl Scenario for C04 {
             for j in 0..plan.cand_len {
                 let gt = (w.recs[c].id + 1) % 2 == 0 || plan.bad_kind == "fee-tx";
                 let dt = 2000 + rng.below(300);
+                if j == plan.bad_pos && TX_INVALIDITY_KINDS.contains(&plan.bad_kind.as_str()) {
+                    match w.child_with_unspendable_input(c, &mut rng, &plan.bad_kind, gt, dt)? {
+                        Some(ti) => {
+                            c = ti;
+                            applied = true;
+                        }
+                        None => {
+                            c = w.honest_child(c, &mut rng, 2, gt, dt, "cand")?;
+                        }
+                    }
+                    cand.push(c);
+                    continue;
+                }
                 let idx = w.honest_child(c, &mut rng, 2, gt, dt, "cand")?;
                 if j == plan.bad_pos {
                     let b = w.block(idx);
